@@ -1029,3 +1029,56 @@ def check_handle_assign(ctx, fb, rule):
                            'its promise still writes to', 'instantiation: ' + f.full[:300])
                 break
     return n
+
+
+# ---------------------------------------------------------------------------------------------------------------------
+# R-GETWAIT: a blocking / checking accessor reads the stored Result only after it established that it exists
+class _GetWalker(pathwalk.Walker):
+    max_paths = 2000
+
+    def on_node(self, fn, n, st):
+        if n['k'] in ('CallExpr', 'CXXMemberCallExpr'):
+            cn = n.get('cn', '')
+            if cn == 'yaclib::Wait' or cn.startswith('yaclib::Wait<') or cn == 'yaclib::detail::WaitCore':
+                st.events.append(('wait', fn.loc(n)))
+            elif cn.endswith('ResultCore::Get') or cn.endswith('::Retire'):
+                st.events.append(('read-result', fn.loc(n)))
+
+    def on_edge(self, fn, ci, taken, st):
+        c = fn.sn(ci)
+        neg = False
+        while c is not None and c['k'] == 'UnaryOperator' and c['op'] == '!':
+            neg = not neg
+            c = fn.sn(c['ch'][0])
+        if c is None:
+            return
+        names = [fn.nodes[j].get('cn', '') for j in fn.deep_descendants(c['i'])] + [c.get('cn', '')]
+        if any(x.split('::')[-1] == 'Ready' for x in names):
+            st.events.append(('ready', taken != neg))
+
+
+def check_get_wait(ctx, fb, rule, classes):
+    """Get() of the handle classes in `classes`: every read of the stored Result is preceded on its path by Wait(*this)
+    or by the true edge of Ready() (Touch() states Ready() as a precondition and is not covered)."""
+    n = 0
+    for f in fb.fn.values():
+        if f.cfg is None or f.n != 'Get' or f.clsq not in classes:
+            continue
+        key = 'R-GETWAIT %s::Get%s' % (f.clsq, ' const' if 'const' in f.flags else '')
+        res = _GetWalker(fb).run(f)
+        ctx.instance(rule, key + ' :: ' + f.cls[:100], dict(paths=len(res)))
+        n += 1
+        for st, _ in res:
+            ev = st.events
+            for i, e in enumerate(ev):
+                if e[0] != 'read-result':
+                    continue
+                if not any(x[0] == 'wait' or x == ('ready', True) for x in ev[:i]):
+                    ctx.report(rule, key, e[1], 'Get() reads the stored Result on a path that neither waited for it '
+                               '(Wait(*this)) nor saw Ready() == true: the value is read before it exists',
+                               'instantiation: ' + f.full[:300])
+                    break
+            else:
+                continue
+            break
+    return n
